@@ -121,6 +121,27 @@ theorem elems_fts (f : Nat) : ∀ (is : List Index) (hp : is.all (idxOK .fulltex
     apply ih hp.2 rest _ res
     simpa [List.append_assoc] using h
 
+theorem elems_fks (f : Nat) : ∀ (ks : List ForeignKey) (hp : ks.all fkOK = true) (rest : List (List Tok)) (c0 : CreateTable)
+    (res : Except Err CreateTable),
+    createElems d f rest { c0 with foreignKey := c0.foreignKey ++ ks } = res →
+    createElems d f (ks.map toksFk ++ rest) c0 = res := by
+  intro ks
+  induction ks with
+  | nil => intro hp rest c0 res h; simpa using h
+  | cons k ks ih =>
+    intro hp rest c0 res h
+    simp only [List.all_cons, Bool.and_eq_true] at hp
+    have h1 : searchTwoUp (toksFk k) "PRIMARY" "KEY" = false := by simp only [toksFk, Bool.eq_false_iff, ne_eq]; kw_simp
+    have h2 : searchTwoUp (toksFk k) "UNIQUE" "KEY" = false := by simp only [toksFk, Bool.eq_false_iff, ne_eq]; kw_simp
+    have h3 : searchStrUp (toksFk k) "KEY" = false := by simp only [toksFk, Bool.eq_false_iff, ne_eq]; kw_simp
+    have h4 : searchTwoUp (toksFk k) "FULLTEXT" "KEY" = false := by simp only [toksFk, Bool.eq_false_iff, ne_eq]; kw_simp
+    have h5 : searchStrUp (toksFk k) "CONSTRAINT" = true := by simp only [toksFk]; kw_simp
+    simp only [List.map_cons, List.cons_append]
+    rw [createElems]
+    simp only [h1, h2, h3, h4, h5, Bool.false_eq_true, if_false, if_true, fk_line k hp.1]
+    apply ih hp.2 rest _ res
+    simpa [List.append_assoc] using h
+
 /-! ### sizes -/
 theorem sizeL_flag_le (b : Bool) (ts : List Tok) : sizeL (flag b ts) ≤ sizeL ts := by cases b <;> simp [flag, sizeL]
 theorem sizeL_lines_le (c : CreateTable) : sizeL (sepAll (toksLines d c)) ≤ sizeL (toksCreate d c) := by
@@ -174,8 +195,7 @@ theorem pCreateTable_ok (c : CreateTable) (hc : FragCreate d c = true) (rest : L
     have := sizeL_part_le (d := d) c hd col h; omega
   obtain ⟨tb, ine, cols, pk, uk, ky, ft, fk, pb, cm, en, ai, dc, co, rf, sp, rfs, rfd, sai, sat, ofm, lo, tp⟩ := c
   simp only [FragCreate, Bool.and_eq_true, List.isEmpty_iff] at hc
-  obtain ⟨⟨⟨⟨htb, hcols⟩, hsegs⟩, hfk⟩, hrest⟩ := hc
-  subst hfk
+  obtain ⟨⟨⟨htb, hcols⟩, hsegs⟩, hrest⟩ := hc
   try simp only at hcolf hpartf
   unfold pCreateTable
   simp only [toksCreate]
@@ -186,36 +206,37 @@ theorem pCreateTable_ok (c : CreateTable) (hc : FragCreate d c = true) (rest : L
   by_cases hd : d = .MYSQL
   · subst hd
     simp only [beq_self_eq_true, if_true, Bool.and_eq_true, List.isEmpty_iff, Option.isNone_iff_eq_none, Bool.not_eq_true'] at hrest
-    obtain ⟨⟨⟨⟨⟨⟨⟨⟨⟨⟨⟨⟨hpk, huk⟩, hky⟩, hft⟩, hai⟩, h1⟩, h2⟩, h3⟩, h4⟩, h5⟩, h6⟩, h7⟩, h8⟩ := hrest
+    obtain ⟨⟨⟨⟨⟨⟨⟨⟨⟨⟨⟨⟨⟨hfk, hpk⟩, huk⟩, hky⟩, hft⟩, hai⟩, h1⟩, h2⟩, h3⟩, h4⟩, h5⟩, h6⟩, h7⟩, h8⟩ := hrest
     subst h1 h2 h3 h4 h5 h6 h7 h8
-    have hE : createElems .MYSQL f (toksLines .MYSQL ⟨tb, ine, cols, pk, uk, ky, ft, [], [], cm, en, ai, dc, co, rf, sp, none, none, none, false, none, none, []⟩)
+    have hE : createElems .MYSQL f (toksLines .MYSQL ⟨tb, ine, cols, pk, uk, ky, ft, fk, [], cm, en, ai, dc, co, rf, sp, none, none, none, false, none, none, []⟩)
         (emptyCreate tb ine) =
-        .ok ⟨tb, ine, cols, pk, uk, ky, ft, [], [], none, none, none, none, none, none, none, none, none, none, false, none, none, []⟩ := by
+        .ok ⟨tb, ine, cols, pk, uk, ky, ft, fk, [], none, none, none, none, none, none, none, none, none, none, false, none, none, []⟩ := by
       simp only [toksLines, beq_self_eq_true, if_true]
-      rw [← List.append_nil (List.map toksIndex ft)]
+      rw [← List.append_nil (List.map toksFk fk)]
       apply elems_cols f cols hcols hcolf
       apply elems_pk f pk hpk _ _ _ rfl
       apply elems_uks f uk huk
       apply elems_keys f ky hky
       apply elems_fts f ft hft
+      apply elems_fks f fk hfk
       rfl
     rw [hE]
     simp only [toksOpts, beq_self_eq_true, if_true, toksMyOpts, List.append_assoc]
-    have k0 := co_end (d := .MYSQL) f ⟨tb, ine, cols, pk, uk, ky, ft, [], [], cm, en, ai, dc, co, rf, sp, none, none, none, false, none, none, []⟩ rest hr
-    have k1 := co_commentMy f tb ine cols pk uk ky ft [] [] cm en ai dc co rf sp none none none false none none [] rest _ _ k0
-    have k2 := co_stats f tb ine cols pk uk ky ft [] [] none en ai dc co rf sp none none none false none none [] _ _ _ k1
-    have k3 := co_rowFormat f tb ine cols pk uk ky ft [] [] none en ai dc co rf none none none none false none none [] _ _ _ k2
-    have k4 := co_collate f tb ine cols pk uk ky ft [] [] none en ai dc co none none none none none false none none [] _ _ _ k3
-    have k5 := co_charset f tb ine cols pk uk ky ft [] [] none en ai dc none none none none none none false none none [] _ _ _ k4
-    have k6 := co_autoInc f tb ine cols pk uk ky ft [] [] none en ai none none none none none none none false none none [] _ _ _ hai k5
-    have k7 := co_engine f tb ine cols pk uk ky ft [] [] none en none none none none none none none none false none none [] _ _ _ k6
+    have k0 := co_end (d := .MYSQL) f ⟨tb, ine, cols, pk, uk, ky, ft, fk, [], cm, en, ai, dc, co, rf, sp, none, none, none, false, none, none, []⟩ rest hr
+    have k1 := co_commentMy f tb ine cols pk uk ky ft fk [] cm en ai dc co rf sp none none none false none none [] rest _ _ k0
+    have k2 := co_stats f tb ine cols pk uk ky ft fk [] none en ai dc co rf sp none none none false none none [] _ _ _ k1
+    have k3 := co_rowFormat f tb ine cols pk uk ky ft fk [] none en ai dc co rf none none none none false none none [] _ _ _ k2
+    have k4 := co_collate f tb ine cols pk uk ky ft fk [] none en ai dc co none none none none none false none none [] _ _ _ k3
+    have k5 := co_charset f tb ine cols pk uk ky ft fk [] none en ai dc none none none none none none false none none [] _ _ _ k4
+    have k6 := co_autoInc f tb ine cols pk uk ky ft fk [] none en ai none none none none none none none false none none [] _ _ _ hai k5
+    have k7 := co_engine f tb ine cols pk uk ky ft fk [] none en none none none none none none none none false none none [] _ _ _ k6
     have hO : ∀ g, _ ≤ g → createOpts _ f g _ _ = _ := k7
     rw [hO]
     simp only [List.length_append]; omega
   · have hb : (d == Gen.D.MYSQL) = false := by simpa using hd
     simp only [hb, Bool.false_eq_true, if_false, Bool.and_eq_true, List.isEmpty_iff, Option.isNone_iff_eq_none] at hrest
-    obtain ⟨⟨⟨⟨⟨⟨⟨⟨⟨⟨⟨⟨⟨⟨⟨⟨⟨⟨h1, h2⟩, h3⟩, h4⟩, h5⟩, h6⟩, h7⟩, h8⟩, h9⟩, h10⟩, hpb⟩, hpbs⟩, htps⟩, hv1⟩, hv2⟩, hv3⟩, hv4⟩, hv5⟩, hv6⟩ := hrest
-    subst h1 h2 h3 h4 h5 h6 h7 h8 h9 h10
+    obtain ⟨⟨⟨⟨⟨⟨⟨⟨⟨⟨⟨⟨⟨⟨⟨⟨⟨⟨⟨h0, h1⟩, h2⟩, h3⟩, h4⟩, h5⟩, h6⟩, h7⟩, h8⟩, h9⟩, h10⟩, hpb⟩, hpbs⟩, htps⟩, hv1⟩, hv2⟩, hv3⟩, hv4⟩, hv5⟩, hv6⟩ := hrest
+    subst h0 h1 h2 h3 h4 h5 h6 h7 h8 h9 h10
     have hE : createElems d f (toksLines d ⟨tb, ine, cols, none, [], [], [], [], pb, cm, none, none, none, none, none, none, rfs, rfd, sai, sat, ofm, lo, tp⟩)
         (emptyCreate tb ine) =
         .ok ⟨tb, ine, cols, none, [], [], [], [], [], none, none, none, none, none, none, none, none, none, none, false, none, none, []⟩ := by
